@@ -110,6 +110,42 @@ def _branches_on_flag(fn, flag):
                 yield (n.orelse, n.body, n) if neg else (n.body, n.orelse, n)
 
 
+def rule_w3(ctx):
+    """`if with_key:` must do something: raise the items signal, or set up / yield the paired iteration.
+    Also followed into self methods that receive the flag."""
+    rep = ctx.report
+    n = 0
+    for cls in K.family(ctx):
+        mem = cls.own('__iter__')
+        if mem is None or not mem.is_function:
+            continue
+        todo = [mem.node]
+        seen = set()
+        while todo:
+            fn = todo.pop()
+            if id(fn) in seen:
+                continue
+            seen.add(id(fn))
+            flag = K.with_key_param(fn)
+            if flag is None:
+                continue
+            for c in A.walk_local(fn):
+                if isinstance(c, ast.Call) and A.is_self_attr(c.func) and any(kw.arg == 'with_key' for kw in c.keywords):
+                    m2 = cls.resolve(c.func.attr)
+                    if m2 is not None and m2.is_function:
+                        todo.append(m2.node)
+                        if K.with_key_param(m2.node) is None:
+                            rep.ob('W', K.key(cls, m2.name, 'with_key-parameter'), False, m2.node, 'helper is handed with_key but has no such parameter')
+            for true_b, false_b, ifn in _branches_on_flag(fn, flag):
+                n += 1
+                does = any(isinstance(x, (ast.Raise, ast.Return, ast.Yield, ast.YieldFrom, ast.Assign, ast.AugAssign, ast.For, ast.While))
+                           for x in A.walk_stmts(true_b))
+                rep.ob('W', K.key(cls, fn.name, 'with_key-branch-has-an-effect'), does, ifn,
+                       '' if does else 'with_key is tested but the branch does nothing: items() falls through to the plain '
+                       'iteration and yields bare examples instead of pairs (or instead of refusing)')
+    rep.floor('with_key branches', n, 12)
+
+
 def rule_w2(ctx):
     rep = ctx.report
     sites = 0
@@ -488,6 +524,13 @@ def rule_kw(ctx):
                 part = loop.target.id
                 looks = [s for s in A.walk_stmts(loop.body) if isinstance(s, ast.Subscript) and A.is_name(s.value, part)
                          and A.is_name(s.slice, item)]
+                if looks:
+                    # duplicate keys across the parts are refused before any part answers
+                    pre = [s for s in arm['body'] if s.lineno < loop.lineno and isinstance(s, ast.Expr)
+                           and isinstance(s.value, ast.Call) and A.dotted(s.value.func) == 'self.keys']
+                    rep.ob('KW', K.key(cls, '__getitem__', 'uniqueness-validated-before-the-part-walk'), bool(pre), loop,
+                           '' if pre else 'the string lookup no longer calls self.keys() (which refuses duplicate keys) first: '
+                           'with the same key in two parts ds[key] silently answers with the first part\'s example')
                 for lk in looks:
                     sites += 1
                     guarded = False
@@ -535,9 +578,18 @@ def rule_ks(ctx):
                 checked = False
                 for s in A.walk_stmts(arm['body']):
                     if isinstance(s, ast.If) and s.lineno <= f.lineno:
-                        for c in ast.walk(s.test):
-                            if isinstance(c, ast.Compare) and A.is_name(c.left, item) and isinstance(c.ops[0], (ast.In, ast.NotIn)) \
-                                    and 'keys' in A.src(c.comparators[0]) and 'input_dataset' not in A.src(c.comparators[0]):
+                        t0, neg0 = A.strip_not(s.test)
+                        c = t0
+                        if isinstance(c, ast.Compare) and len(c.ops) == 1 and A.is_name(c.left, item) \
+                                and isinstance(c.ops[0], (ast.In, ast.NotIn)) \
+                                and 'keys' in A.src(c.comparators[0]) and 'input_dataset' not in A.src(c.comparators[0]):
+                            absent_when_true = isinstance(c.ops[0], ast.NotIn) != neg0
+                            refusing = s.body if absent_when_true else s.orelse
+                            answering = s.orelse if absent_when_true else s.body
+                            raises = any(isinstance(x, ast.Raise) for x in refusing)
+                            in_answering = any(x is f for st_ in answering for x in ast.walk(st_)) or (
+                                not answering and not any(x is f for st_ in refusing for x in ast.walk(st_)))
+                            if raises and in_answering:
                                 checked = True
                     if isinstance(s, ast.Call) and isinstance(s.func, ast.Attribute) and s.func.attr == 'index' \
                             and 'keys' in A.src(s.func.value) and s.args and A.is_name(s.args[0], item):
@@ -554,6 +606,7 @@ def run(ctx):
     rule_kw(ctx)
     rule_ks(ctx)
     rule_w(ctx)
+    rule_w3(ctx)
     rule_w2(ctx)
     rule_t(ctx)
     rule_a(ctx)
